@@ -271,17 +271,35 @@ def write_main(case, root):
         fh.write('<neuroml %s id="main">%s</neuroml>' % (NS, body))
 
 
+def hidden_docs(doc):
+    """NeuroMLDocument objects other than doc that hang on the embedded elements through parent_object_ (objects built by the
+    parser know their parent; copy.deepcopy follows that link), searched transitively"""
+    seen, todo = set(), [doc]
+    while todo:
+        d = todo.pop()
+        for c in all_cells(d):
+            for o in (c.morphology, c.biophysical_properties):
+                p = getattr(o, "parent_object_", None) if o is not None else None
+                if isinstance(p, neuroml.NeuroMLDocument) and p is not doc and id(p) not in seen:
+                    seen.add(id(p))
+                    todo.append(p)
+        if len(seen) > 100000:
+            break
+    return len(seen)
+
+
 def run_parser(case, root):
     """the same document as a file, read the way NeuroMLXMLParser.parse does it (include resolution, then the fix)"""
     from neuroml.hdf5.DefaultNetworkHandler import DefaultNetworkHandler
     from neuroml.hdf5.NeuroMLXMLParser import NeuroMLXMLParser
 
     write_main(case, root)
-    r = {"outcome": "ok", "output": [], "detail": ""}
+    r = {"outcome": "ok", "output": [], "detail": "", "hidden_docs": 0}
     try:
         p = NeuroMLXMLParser(DefaultNetworkHandler())
         p.parse("main.nml")
         r["output"] = [cellobs(c) for c in all_cells(p.nml_doc)]
+        r["hidden_docs"] = hidden_docs(p.nml_doc)
     except KeyError as e:
         r["outcome"] = "keyerror"
         r["detail"] = str(e)
